@@ -339,3 +339,46 @@ def c01_arity(R):
     R.need(examined >= 10, f"only {examined} flattened-operator facts examined in the simplifiers")
     if n == 0:
         R.ok(m, None, "no rewrite reads two operands of a flattened node")
+
+
+@rule(
+    "C04.edge",
+    props=("C04",),
+    floor=3,
+    family="GRD",
+    desc="two edge values of expression construction: the concrete backend refuses (BackendError, which the eager fold "
+    "suppresses) the empty interval's missing value instead of computing with None; the variadic Boolean simplifiers "
+    "answer the empty operand list before anything reads a first operand",
+)
+def c04_edge(R):
+    tree = R.tree
+    BCON = "claripy/backends/backend_concrete/backend_concrete.py"
+    mc = tree.mod(BCON)
+    fn = tree.func(BCON, "BackendConcrete.BVV")
+    p0 = [a.arg for a in fn.args.args][0]
+    raises = [r for r in walk_no_nested(fn) if isinstance(r, ast.Raise) and "BackendError" in ast.unparse(r)]
+    ok = any(f"{p0} is None" in _facts(r) for r in raises)
+    R.check(
+        ok,
+        mc,
+        fn,
+        "BackendConcrete.BVV refuses a missing value",
+        "BackendConcrete.BVV builds a concrete bit-vector from the value None (the empty interval, claripy.ESI): the eager fold "
+        "then computes None + 1 and ESI(32) + 1, ~ESI(32), ESI(32)[7:0] raise TypeError out of the AST constructor",
+        construct="BackendConcrete.BVV: value None accepted",
+    )
+    m = tree.mod(SIMP)
+    for name in ("boolean_and_simplifier", "boolean_or_simplifier"):
+        f = tree.func(SIMP, name)
+        va = f.args.vararg.arg if f.args.vararg else None
+        R.need(va is not None, f"{name} no longer takes *args")
+        empties = [r for r in _returns(f) if any(g in (f"len({va}) == 0", f"not {va}") for g in _facts(r))]
+        R.check(
+            bool(empties),
+            m,
+            f,
+            f"{name} answers the empty operand list",
+            f"{name} has no answer for an empty operand list: the flattening helper looks for a first AST operand and "
+            f"{'Or' if 'or' in name else 'And'}() raises StopIteration",
+            construct=f"{name}: empty operand list",
+        )
